@@ -58,10 +58,34 @@ Print Assumptions C05_inv_check_means_partition.
    overflow pages included -- and from the free-list run), and no two reachable nodes or the free-list run share a page.
    `txs_ok'` carries only the model's fuels. This is C05's "each page exactly one of reachable / free list / free" for the
    model, minus completeness (no leak), which is checked per file by inv_check. ---- *)
-From Jamm Require Engine EngineTxInvFacts EngineRefines EngineOwnDefs EngineAllocInv EngineCorollaries.
+From Jamm Require Bytes Spec Engine EngineAbs EnginePathFacts EngineTxInvFacts EngineRefines EngineOwnDefs EngineAllocInv EngineCorollaries.
 Theorem C05_engine_states_well_formed : forall P txs st', (0 < P)%N -> EngineAllocInv.txs_ok' (Engine.init_db P) txs ->
   EngineRefines.run_txs (Engine.init_db P) txs = Engine.Ok st' ->
   EngineTxInvFacts.db_strict st' /\ EngineRefines.alloc_ok st' (EngineOwnDefs.Rof st') /\
   NoDup (EngineRefines.live_of st' (EngineOwnDefs.Rof st')) /\ EngineOwnDefs.pend_le st'.
 Proof. exact EngineCorollaries.reachable_states_ok. Qed.
 Print Assumptions C05_engine_states_well_formed.
+
+(* ==== C05 for the engine model, in full: every state a history of transactions reaches from the empty database accounts for each
+   page of [2, num_pages) EXACTLY once -- it is in the run of a reachable node or in the free-list run (pairwise disjoint, no page
+   shared: C05_engine_states_well_formed), or it is a free id, or a pending id; nothing is leaked; and the ids recorded on the
+   free-list page are exactly the pages that are not live. ==== *)
+From Jamm Require EngineNoLeakDefs EngineNoLeak.
+Theorem C05_engine_exact_partition : forall (P : N) (txs : list (list Engine.op * list Bytes.bytes)) (st' : Engine.db),
+  (0 < P)%N -> EngineAllocInv.txs_ok' (Engine.init_db P) txs ->
+  EngineRefines.run_txs (Engine.init_db P) txs = Engine.Ok st' ->
+  EngineNoLeakDefs.db_exact st' /\ EngineAbs.abs_db st' = EngineRefines.sem_txs txs (Spec.SBucket 0 0 nil).
+Proof. exact EngineNoLeak.run_txs_exact_init. Qed.
+Print Assumptions C05_engine_exact_partition.
+
+Theorem C05_engine_exact_partition_step : forall (st : Engine.db) (ops : list Engine.op) (ord : list Bytes.bytes) (st' : Engine.db),
+  EngineNoLeakDefs.db_exact st -> Forall (EnginePathFacts.op_ok (Engine.d_disk st)) ops ->
+  Engine.run_tx st ops ord = Engine.Ok st' -> EngineRefines.readable st' -> EngineNoLeak.db_exact_rec st'.
+Proof. exact EngineNoLeak.run_tx_exact_rec. Qed.
+Print Assumptions C05_engine_exact_partition_step.
+
+Theorem C05_engine_free_list_records_exactly_the_unused_pages : forall st : Engine.db, EngineNoLeak.db_exact_rec st ->
+  forall x : N, In x (Engine.d_flids st) <->
+    ((2 <= x)%N /\ (x < Engine.d_np st)%N) /\ ~ In x (EngineRefines.live_of st (EngineOwnDefs.Rof st)).
+Proof. exact EngineNoLeak.flids_exact. Qed.
+Print Assumptions C05_engine_free_list_records_exactly_the_unused_pages.
